@@ -546,16 +546,89 @@ func c06Pick(rt *rapid.T, pool []string, label string, max int) []string {
 }
 
 // c06GenLoopCfg draws a policy over the loopback addresses the listeners stand on.
+var (
+	c06LoopBlock   = []string{"127.0.0.2/32", "127.0.0.3/32", "::1/128", "127.0.0.0/8", "127.0.0.0/31", "127.0.0.2/31", "10.0.0.0/8", "::ffff:127.0.0.2/128", "fe80::/10", "127.0.0.4/32", "127.0.0.1/32", "127.0.0.1/32"}
+	c06LoopAllow   = []string{"127.0.0.1/32", "127.0.0.0/30", "::1/128", "127.0.0.0/8", "127.0.0.3/32", "127.0.0.4/31"}
+	c06LoopDomains = []string{`^rebind\.`, "blocked", "^$", ":", `^127\.`}
+)
+
 func c06GenLoopCfg(rt *rapid.T) c06Cfg {
 	var c c06Cfg
-	c.Block = c06Pick(rt, []string{"127.0.0.2/32", "127.0.0.3/32", "::1/128", "127.0.0.0/8", "127.0.0.0/31", "127.0.0.2/31", "10.0.0.0/8", "::ffff:127.0.0.2/128", "fe80::/10", "127.0.0.4/32", "127.0.0.1/32"}, "block", 3)
+	c.Block = c06Pick(rt, c06LoopBlock, "block", 3)
 	if rapid.IntRange(0, 9).Draw(rt, "allowp") < 3 {
-		c.Allow = c06Pick(rt, []string{"127.0.0.1/32", "127.0.0.0/30", "::1/128", "127.0.0.0/8", "127.0.0.3/32", "127.0.0.4/31"}, "allow", 2)
+		c.Allow = c06Pick(rt, c06LoopAllow, "allow", 2)
 	}
 	if rapid.IntRange(0, 9).Draw(rt, "domp") < 3 {
-		c.Domains = c06Pick(rt, []string{`^rebind\.`, "blocked", "^$", ":", `^127\.`}, "dom", 2)
+		c.Domains = c06Pick(rt, c06LoopDomains, "dom", 2)
 	}
+	// covert_blocklist_public_addrs: the station's own interface networks (here: all of loopback)
+	c.Public = rapid.IntRange(0, 5).Draw(rt, "public") == 0
 	return c
+}
+
+// c06MutateCfg derives the configuration of a reload from the one in force: every option is kept or
+// changed on its own, so reloads that touch one option and leave the strings of another identical
+// (the subnet list unchanged while public-address blocking flips, an allowlist added or removed
+// while the blocklist stays, ...) are as frequent as reloads that change everything.
+func c06MutateCfg(rt *rapid.T, prev c06Cfg) c06Cfg {
+	n := c06Cfg{Block: append([]string(nil), prev.Block...), Allow: append([]string(nil), prev.Allow...), Domains: append([]string(nil), prev.Domains...), Public: prev.Public}
+	if rapid.IntRange(0, 2).Draw(rt, "chg-block") == 0 {
+		n.Block = c06Pick(rt, c06LoopBlock, "block", 3)
+	}
+	if rapid.IntRange(0, 1).Draw(rt, "chg-public") == 0 {
+		n.Public = !n.Public
+	}
+	if rapid.IntRange(0, 3).Draw(rt, "chg-allow") == 0 {
+		if len(n.Allow) > 0 && rapid.Bool().Draw(rt, "drop-allow") {
+			n.Allow = nil
+		} else {
+			n.Allow = append([]string{rapid.SampledFrom(c06LoopAllow).Draw(rt, "allow1")}, c06Pick(rt, c06LoopAllow, "allow", 1)...)
+		}
+	}
+	if rapid.IntRange(0, 3).Draw(rt, "chg-dom") == 0 {
+		n.Domains = c06Pick(rt, c06LoopDomains, "dom", 2)
+	}
+	return n
+}
+
+func c06SameStrings(a, b []string) bool {
+	if len(a) != len(b) {
+		return false
+	}
+	for i := range a {
+		if a[i] != b[i] {
+			return false
+		}
+	}
+	return true
+}
+
+// c06Probes are literal coverts asked of the running station and of a station started fresh with
+// the same configuration after every reload: loopback and its neighbours, one address inside every
+// local interface network (what covert_blocklist_public_addrs adds), private and public addresses.
+func c06Probes(port string) ([]string, error) {
+	hosts := []string{"127.0.0.1", "127.0.0.2", "127.0.0.3", "127.0.0.4", "127.255.255.254", "126.255.255.255", "[::1]", "[::2]", "[::ffff:127.0.0.2]",
+		"10.0.0.1", "192.168.1.1", "8.8.8.8", "[fe80::1]", "[fd00::1]", "[2001:db8::1]"}
+	nets, err := c06InterfaceNets()
+	if err != nil {
+		return nil, err
+	}
+	for _, p := range nets {
+		a := p.Addr().Next()
+		if !a.IsValid() || !p.Contains(a) {
+			a = p.Addr()
+		}
+		if a.Is6() {
+			hosts = append(hosts, "["+a.String()+"]")
+		} else {
+			hosts = append(hosts, a.String())
+		}
+	}
+	var out []string
+	for _, h := range hosts {
+		out = append(out, h+":"+port)
+	}
+	return out, nil
 }
 
 func c06GenLoopScript(rt *rapid.T) c06Script {
@@ -680,11 +753,16 @@ func c06GenHist(rt *rapid.T) c06HistCase {
 		c.Coverts = append(c.Coverts, c06GenLoopCovert(rt))
 	}
 	n := rapid.IntRange(2, 10).Draw(rt, "nops")
+	cur := c.Cfg0
 	for i := 0; i < n; i++ {
 		var op c06HistOp
 		switch k := rapid.IntRange(0, 9).Draw(rt, "opkind"); {
 		case k < 3:
-			cfg := c06GenLoopCfg(rt)
+			cfg := c06MutateCfg(rt, cur)
+			if rapid.IntRange(0, 4).Draw(rt, "fresh-cfg") == 0 {
+				cfg = c06GenLoopCfg(rt)
+			}
+			cur = cfg
 			op = c06HistOp{Kind: "reload", Cfg: &cfg}
 		case k < 6:
 			op = c06HistOp{Kind: "parse", Covert: rapid.IntRange(0, nc-1).Draw(rt, "ci")}
@@ -695,6 +773,17 @@ func c06GenHist(rt *rapid.T) c06HistCase {
 		c.Ops = append(c.Ops, op)
 	}
 	return c
+}
+
+// cfgBefore returns the configuration in force before operation i.
+func (c c06HistCase) cfgBefore(i int) c06Cfg {
+	cur := c.Cfg0
+	for j := 0; j < i && j < len(c.Ops); j++ {
+		if c.Ops[j].Kind == "reload" && c.Ops[j].Cfg != nil {
+			cur = *c.Ops[j].Cfg
+		}
+	}
+	return cur
 }
 
 func c06CheckHist(t vh.Fataler, rec *vh.Rec, x *c06IngestEnv, c c06HistCase) {
@@ -733,9 +822,43 @@ func c06CheckHist(t vh.Fataler, rec *vh.Rec, x *c06IngestEnv, c c06HistCase) {
 			}
 			// what SIGHUP does: parse a fresh configuration, hand it to OnReload
 			e.rm.OnReload(op.Cfg.regConfig())
+			sameBlock := c06SameStrings(cur.Block, op.Cfg.Block)
+			switch {
+			case sameBlock && cur.Public != op.Cfg.Public:
+				classes["hist:reload-public-flipped-subnet-strings-unchanged"] = true
+			case !sameBlock:
+				classes["hist:reload-subnet-strings-changed"] = true
+			}
+			if len(cur.Allow) == 0 && len(op.Cfg.Allow) > 0 {
+				classes["hist:reload-allowlist-added"] = true
+			}
+			if len(cur.Allow) > 0 && len(op.Cfg.Allow) == 0 {
+				classes["hist:reload-allowlist-removed"] = true
+			}
 			cur = *op.Cfg
 			reloads++
 			classes["hist:reload"] = true
+			// the policy in force must now be the policy of a station started with this configuration:
+			// differential against a freshly parsed RegConfig, and each answer judged by the reference
+			fresh := cur.regConfig()
+			probes, err := c06Probes(port)
+			if err != nil {
+				t.Fatalf("harness problem: %v", err)
+			}
+			for _, pr := range probes {
+				running, _ := e.rm.ParseOrResolveBlocklisted(pr)
+				started, _ := fresh.ParseOrResolveBlocklisted(pr)
+				if running != started {
+					nontriv = true
+					finish("covert:reload-differs-from-fresh-start", fmt.Sprintf("history step %d: after reload #%d to %+v (before: %+v) the running station answers %q for covert %q, a station started with the same configuration answers %q", i, reloads, cur, c.cfgBefore(i), running, pr, started))
+					return
+				}
+				if v := c06Judge(pr, cur, running, nil); v.Key != "" && v.Key != "harness" {
+					nontriv = true
+					finish(v.Key, fmt.Sprintf("history step %d: probe after reload #%d, policy in force %+v: %s", i, reloads, cur, v.Msg))
+					return
+				}
+			}
 			continue
 		}
 		if op.Covert < 0 || op.Covert >= len(c.Coverts) {
@@ -806,9 +929,10 @@ func c06CheckHist(t vh.Fataler, rec *vh.Rec, x *c06IngestEnv, c c06HistCase) {
 }
 
 func TestVerif_C06_reload(t *testing.T) {
-	rec := vh.NewRec("C06", "reload", "rapid: histories of 2-10 operations on ONE long-lived RegistrationManager / RegConfig over a pool of 1-3 recurring covert strings: {guard-level admission (ParseOrResolveBlocklisted on the manager), full ingest of a new session (wrapping or connecting transport, drawn registration source and client flags) followed by the dial as in the ingest sub-check, reload of the policy through OnReload with a freshly parsed RegConfig (what SIGHUP does)}; resolver script shared by the whole history (answers change between lookups). Oracle: every admission is judged by the reference policy for the configuration in force at that moment (an address answered for the same name during an earlier admission also counts as answered). Non-trivial: a covert string is admitted again after a reload. Distinct by history")
+	rec := vh.NewRec("C06", "reload", "rapid: histories of 2-10 operations on ONE long-lived RegistrationManager / RegConfig over a pool of 1-3 recurring covert strings: {guard-level admission (ParseOrResolveBlocklisted on the manager), full ingest of a new session (wrapping or connecting transport, drawn registration source and client flags) followed by the dial as in the ingest sub-check, reload of the policy through OnReload with a freshly parsed RegConfig (what SIGHUP does); the reloaded configuration is derived from the one in force by keeping or changing each option on its own (subnet strings, public-address blocking, allowlist added/removed, domain patterns), sometimes drawn afresh}; resolver script shared by the whole history (answers change between lookups). Oracle: after every reload a probe set of literal coverts (loopback and neighbours, one address inside every local interface network, private, public) must get from the running station exactly the answers a station started fresh with that configuration gives, and those answers are judged by the reference policy; every admission is judged by the reference policy for the configuration in force at that moment (an address answered for the same name during an earlier admission also counts as answered). Non-trivial: a covert string is admitted again after a reload. Distinct by history")
 	defer rec.Flush()
-	rec.Require("hist:reload", "hist:readmission-after-reload", "hist:accepted-then-refused-after-reload", "hist:refused-then-accepted-after-reload",
+	rec.Require("hist:reload-public-flipped-subnet-strings-unchanged", "hist:reload-subnet-strings-changed", "hist:reload-allowlist-added", "hist:reload-allowlist-removed",
+		"hist:reload", "hist:readmission-after-reload", "hist:accepted-then-refused-after-reload", "hist:refused-then-accepted-after-reload",
 		"ingest:valid-registration", "dial:performed", "out:name-accepted", "ingest:connecting-transport", "ingest:shared-by-peer-station", "ingest:shared-by-peer-station-refused-here")
 	x := c06NewIngestEnv(t)
 	var c c06HistCase
